@@ -106,7 +106,12 @@ def plan_inherit(case, pid):
         ty = t["path"]
         if pid == "C06":
             if t["baseHasVft"] or t["ownBlock"]:
-                acts.append({"k": "vftacc", "ty": ty})
+                # where the pointer lives: follow the first bases down to the type that owns it
+                path, cur = [], t
+                while cur["baseHasVft"]:
+                    path.append(cur["firstBase"])
+                    cur = oracle[field_type(cur["name"], cur["firstBase"])]
+                acts.append({"k": "vftacc", "ty": ty, "path": path})
         else:
             for e in t["exposed"]:
                 r = resolve(t["name"], e["name"], [])
